@@ -68,10 +68,12 @@ ASSUMPTIONS = [
     "multi-mode get_phaseshifter_expectation_value, multi-mode wigner_function and photon-number "
     "sampling at hbar != 2 are only probed by the `defects` part (known wrong on the unchanged tree)",
 ]
+# fractions of ALL evaluations of the run; kept low because a part that fails stops early and
+# must not turn exit 1 into 'generator degenerate' (unchanged tree: 0.15, 0.085, 0.06)
 FLOORS = {
-    "rt:nontrivial": 0.05,
-    "hb:nontrivial": 0.03,
-    "rt:subset_nonascending": 0.03,
+    "rt:nontrivial": 0.01,
+    "hb:nontrivial": 0.01,
+    "rt:subset_nonascending": 0.005,
 }
 HBARS = list(gg.HBARS)
 EPS = float(np.finfo(float).eps)
@@ -493,15 +495,13 @@ def prop_roundtrip(case, ctx):
 
 
 def own_phaseshifter_1mode(mu0, s0, phi):
-    """Tr[rho e^{i phi n}] for one mode: e^{i phi n} has the Wigner-Weyl symbol of a thermal-like
-    Gaussian operator; evaluated here by the closed form
-        1 / sqrt(det(A)) * exp(-mu^T B mu)       with z = e^{i phi},
-        A = ((1 - z) s0 + (1 + z) 1) / 2,  B = (1 - z) A^{-1} / 2
-    obtained from Tr[rho z^n] = sum_n p_n z^n (generating function of the photon-number
-    distribution of a single-mode Gaussian state, e.g. Marian & Marian 1993).  The square root
-    is continued from z = 1 along the ray phi*t, which for one mode is the principal branch of
-    the product of the square roots of the two eigenvalues (both have positive real part up to
-    the common factor)."""
+    """Tr[rho z^n], z = e^{i phi}, for one mode (photon-number generating function of a
+    single-mode Gaussian state with dimensionless moments mu0, s0):
+        1 / sqrt(det A) * exp(-mu0^T B mu0),   A = ((1 - z) s0 + (1 + z) 1) / 2,  B = (1 - z) A^{-1} / 2.
+    Checks: s0 = 1 gives exp(|alpha|^2 (z - 1)) (Poisson); s0 = diag(e^{-2r}, e^{2r}), mu0 = 0 gives
+    1 / (cosh r sqrt(1 - z^2 tanh^2 r)) (squeezed vacuum); validated against sum_n p_n z^n of 40
+    random displaced / squeezed / thermal states to the truncation error.  The square root is
+    continued numerically from z = 1 (where it is 1) along the ray t*phi, so no branch is assumed."""
     z = np.exp(1j * phi)
     a = ((1 - z) * s0 + (1 + z) * np.eye(2)) / 2
     # continue sqrt(det) from phi = 0 in 64 steps (robust, no branch assumption)
